@@ -385,7 +385,13 @@ pub fn owned(prop: &str, v: &Violation) -> bool {
     match prop {
         "C01" => strict && content && matches!(v.op, Op::Put | Op::Take | Op::Clear | Op::Get | Op::Iter | Op::PushRun | Op::New | Op::DropVec | Op::MoveVec | Op::Nop),
         "C02" => strict && content && matches!(v.op, Op::Drain | Op::Splice),
-        "C03" => strict && (ledger || v.class == BadValue || v.ownership),
+        // under a panicking destructor or clone (fault variants): destroyed twice, destroyed garbage,
+        // or a destroyed value still reachable through a vector
+        "C03" => {
+            (strict && (ledger || v.class == BadValue || v.ownership))
+                || matches!(v.class, DoubleDrop | GarbageDrop)
+                || (v.class == RelaxedInvalid && (v.detail.contains("are alive") || v.detail.contains("is not a valid value")))
+        }
         "C04" => v.op == Op::TypeProbe,
         "C05" => {
             matches!(v.class, MemEnv | LenGtCap | ObjectGuard | StorageLeak | BadValue | GarbageDrop | SharedStorage | Memcheck)
